@@ -65,6 +65,12 @@ class Holder:
     c: Any = field(default_factory=lambda: [5, 6])
 
 
+@dataclass
+class Holder2:
+    """a field NAMED like one of Holder's, with another default"""
+    b: Any = 5
+
+
 @dataclass(frozen=True)
 class Frozen:
     items: tuple = ()
@@ -111,6 +117,8 @@ def to_real(v):
             return m.Outer.Inner(**{f["name"]: to_real(f["v"]) for f in v["fields"]})
         if v["home"]["path"] == ["Outer", "Mid", "Deep"]:
             return m.Outer.Mid.Deep(**{f["name"]: to_real(f["v"]) for f in v["fields"]})
+        if v["home"]["path"] == ["Holder2"]:
+            return m.Holder2(**{f["name"]: to_real(f["v"]) for f in v["fields"]})
         return m.Holder(**{f["name"]: to_real(f["v"]) for f in v["fields"]})
     raise ValueError(t)
 
